@@ -477,8 +477,8 @@ theorem notany_iff (g : Grammar) (p : P) (nd : Node) (s : List Char) (loc : Nat)
 theorem opt_spec (g : Grammar) (p : P) (nd : Node) (s : List Char) (loc : Nat) (acts : Bool) (x : Nat)
     (d : Option (List Char)) (hk : nd.kind = .opt x d) :
     parseImpl g p nd s loc acts = (match p x loc acts false with
-      | .fail .parse _ => .ok loc (optDefault g x d)
-      | .idx => .ok loc (optDefault g x d)
+      | .fail .parse _ => .ok loc (optNoMatch nd (optDefault g x d))
+      | .idx => .ok loc (optNoMatch nd (optDefault g x d))
       | o => o) := by
   unfold parseImpl
   simp only [hk]
